@@ -36,9 +36,18 @@ type srcFile struct {
 	Text string `json:"text"`
 }
 
+// A case: the files are loaded in order and processed (twice); when there are later files, they
+// are then loaded into the same Modules and everything is processed again (twice): what is
+// observed afterwards must be what a fresh Modules holding all the texts gives, which is the
+// model's answer for files followed by later.
 type tcase struct {
 	ID    string    `json:"id"`
 	Files []srcFile `json:"files"`
+	Later []srcFile `json:"later,omitempty"`
+}
+
+func (c tcase) all() []srcFile {
+	return append(append([]srcFile{}, c.Files...), c.Later...)
 }
 
 // leafObs is what one leaf entry (or AST leaf) shows.
@@ -52,6 +61,7 @@ type leafObs struct {
 type goRes struct {
 	ID       string               `json:"id"`
 	ParseErr string               `json:"parse_err,omitempty"`
+	Phase1   []string             `json:"phase1_errors,omitempty"`
 	P1       []string             `json:"p1"`
 	P2       []string             `json:"p2"`
 	Leaves   map[string][]leafObs `json:"leaves"`
@@ -105,6 +115,17 @@ func runGo(c tcase) (res goRes) {
 	}
 	res.P1, res.Dropped = errLinesN(ms.Process())
 	res.P2 = errLines(ms.Process())
+	if len(c.Later) > 0 {
+		res.Phase1 = res.P1
+		for _, f := range c.Later {
+			if err := ms.Parse(f.Text, f.Name); err != nil {
+				res.ParseErr = err.Error()
+				return res
+			}
+		}
+		res.P1, res.Dropped = errLinesN(ms.Process())
+		res.P2 = errLines(ms.Process())
+	}
 	seen := map[*yang.Module]bool{}
 	var mods []*yang.Module
 	for _, m := range ms.Modules {
@@ -399,9 +420,10 @@ type modelRes struct {
 }
 
 func wire(c tcase) (string, error) {
-	names := make([]string, len(c.Files))
-	texts := make([]string, len(c.Files))
-	for i, f := range c.Files {
+	fs := c.all()
+	names := make([]string, len(fs))
+	texts := make([]string, len(fs))
+	for i, f := range fs {
 		names[i], texts[i] = f.Name, f.Text
 	}
 	return lib.WireFiles(names, texts)
@@ -656,6 +678,12 @@ func caseKey(c tcase) string {
 		sb.WriteString(f.Text)
 		sb.WriteByte(0)
 	}
+	for _, f := range c.Later {
+		sb.WriteString("later\x00" + f.Name)
+		sb.WriteByte(0)
+		sb.WriteString(f.Text)
+		sb.WriteByte(0)
+	}
 	return sb.String()
 }
 
@@ -678,9 +706,9 @@ func main() {
 	cases = append(cases, corpus...)
 	exh := exhaustiveCases()
 	cases = append(cases, exh...)
-	nRandom, nOdd, nChain := 6000, 600, 2000
+	nRandom, nOdd, nChain, nRev, nHist := 6000, 600, 2000, 1500, 1500
 	if f.Thorough() {
-		nRandom, nOdd, nChain = 150000, 8000, 40000
+		nRandom, nOdd, nChain, nRev, nHist = 150000, 8000, 40000, 30000, 30000
 	}
 	shards := 64
 	rnd := make([][]tcase, shards)
@@ -700,6 +728,12 @@ func main() {
 			}
 			for i := 0; i < nChain/shards; i++ {
 				rnd[s] = append(rnd[s], chainCase(r, fmt.Sprintf("chain/%d/%d", s, i)))
+			}
+			for i := 0; i < nRev/shards; i++ {
+				rnd[s] = append(rnd[s], revisionCase(r, fmt.Sprintf("rev/%d/%d", s, i), false))
+			}
+			for i := 0; i < nHist/shards; i++ {
+				rnd[s] = append(rnd[s], revisionCase(r, fmt.Sprintf("hist/%d/%d", s, i), true))
 			}
 		}(s)
 	}
@@ -856,6 +890,8 @@ func main() {
 	res.Distribution["random_cases"] = nRandom / shards * shards
 	res.Distribution["odd_cases"] = nOdd / shards * shards
 	res.Distribution["chain_depth5_cases"] = nChain / shards * shards
+	res.Distribution["multi_revision_import_cases"] = nRev / shards * shards
+	res.Distribution["load_process_load_process_history_cases"] = nHist / shards * shards
 	res.Distribution["model_status"] = status
 	res.Distribution["spec_verdicts_by_group"] = groupStats
 	res.Distribution["spec_no_claim_reasons"] = noClaimWhy
@@ -922,6 +958,9 @@ func replay(f *lib.Flags) {
 	sbad := specCheck(g, parseSpec(sans))
 	for _, fl := range c.Files {
 		fmt.Printf("--- %s\n%s\n", fl.Name, fl.Text)
+	}
+	for _, fl := range c.Later {
+		fmt.Printf("--- (loaded after the first Process) %s\n%s\n", fl.Name, fl.Text)
 	}
 	gb, _ := json.MarshalIndent(g, "", " ")
 	fmt.Printf("go:    %s\nmodel: %s\nspec:  %s\n", gb, ans, sans)
